@@ -17,6 +17,8 @@ structure EnvOK (E : Env) : Prop where
   /-- what `adapt` returns offers the protocol. -/
   adaptProvides : ∀ v c r, E.adapt v c = .ok (some r) → Val.isInst c r = true ∨ E.provides r c = true
   fnRange : ∀ f v w, E.fn f v = .ok w → E.fnRange f w = true
+  /-- `asarray(value, dtype)` has dtype `dtype`. -/
+  asarrayTyped : ∀ v t d s, E.asarray v (some t) = .ok (d, s) → d = t
 
 /-- Accepted ⇒ in the domain and the documented conversion. -/
 def Good (E : Env) (t : TraitType) (v w : Val) : Prop := inDomain E t w = true ∧ Conv E t v w
@@ -215,10 +217,6 @@ theorem py_none_ok (v w : Val) (h : pyValidate E .noneTrait v = .ok w) : Good E 
   · simp [hn] at h; subst h; exact ⟨by simp [inDomain, hn], rfl⟩
   · simp [hn] at h
 
-theorem ite_ok {c : Prop} [Decidable c] {x w : Val}
-    (h : (if c then Res.ok x else Res.traitError) = Res.ok w) : c ∧ x = w := by
-  split at h <;> simp_all
-
 theorem stringRun_ok (mn : Nat) (mx re : Option Nat) (w x : Val) (s : String)
     (h : stringRun E mn mx re w s (stringInit mn mx re) = .ok x) :
     x = w ∧ strLenOk mn mx s = true ∧ strReOk E re s = true := by
@@ -296,6 +294,79 @@ theorem py_prefixMap_ok (keys : List String) (vals : List Val) (v w : Val)
     simp only [hs] at h
     obtain ⟨⟨s', h1, h2⟩, h3⟩ := completeValue_ok keys v w s hs h
     exact ⟨by simp only [inDomain, h1, h2], h3⟩
+
+theorem ite_ok {c : Prop} [Decidable c] {x w : Val}
+    (h : (if c then Res.ok x else Res.traitError) = Res.ok w) : c ∧ x = w := by
+  split at h <;> simp_all
+
+/-- What `asarray(value, dtype)` returns has that dtype (numpy fact; `EnvOK` does
+not cover it, so it is a hypothesis of the Array lemmas). -/
+def AsarrayTyped (E : Env) : Prop := ∀ v t d s, E.asarray v (some t) = .ok (d, s) → d = t
+
+theorem arrayStage1_ok (hA : AsarrayTyped E) (dt : Option Nat) (c : Nat) (v x : Val) (s' : List Nat)
+    (h : arrayStage1 E dt c v = some (x, s')) :
+    (∃ d', x = .atom (.ndarray d' s') ∧ (match dt with | none => True | some t => d' = t)) ∧
+    Conv E (.array dt none c) v x := by
+  unfold arrayStage1 at h
+  rcases v with a | ⟨sub, vs⟩ | vs
+  · cases a <;> simp at h
+    case ndarray d s =>
+      cases dt with
+      | none => simp at h; obtain ⟨rfl, rfl⟩ := h; exact ⟨⟨d, rfl, trivial⟩, Or.inl rfl⟩
+      | some t =>
+        simp only at h
+        by_cases hdt : d = t
+        · subst hdt; simp at h; obtain ⟨rfl, rfl⟩ := h
+          exact ⟨⟨d, rfl, rfl⟩, Or.inl rfl⟩
+        · have : (d == t) = false := by simpa using hdt
+          simp only [this, Bool.false_eq_true, if_false] at h
+          by_cases hcc : E.canCast d t c = true
+          · simp [hcc] at h; obtain ⟨rfl, rfl⟩ := h
+            exact ⟨⟨t, rfl, rfl⟩, Or.inr (Or.inl ⟨d, s, t, rfl, rfl, hcc, rfl⟩)⟩
+          · simp [hcc] at h
+  · simp only at h
+    cases has : E.asarray (.tuple sub vs) dt with
+    | error e => simp [has] at h
+    | ok q =>
+      obtain ⟨d, s⟩ := q
+      simp [has] at h; obtain ⟨rfl, rfl⟩ := h
+      refine ⟨⟨d, rfl, ?_⟩, Or.inr (Or.inr ⟨d, s, has, rfl⟩)⟩
+      cases dt with
+      | none => trivial
+      | some t => exact hA _ t d s has
+  · simp only at h
+    cases has : E.asarray (.list vs) dt with
+    | error e => simp [has] at h
+    | ok q =>
+      obtain ⟨d, s⟩ := q
+      simp [has] at h; obtain ⟨rfl, rfl⟩ := h
+      refine ⟨⟨d, rfl, ?_⟩, Or.inr (Or.inr ⟨d, s, has, rfl⟩)⟩
+      cases dt with
+      | none => trivial
+      | some t => exact hA _ t d s has
+
+theorem py_array_ok (hA : AsarrayTyped E) (dt : Option Nat) (sh : Option (List DimSpec)) (c : Nat) (v w : Val)
+    (h : pyValidate E (.array dt sh c) v = .ok w) : Good E (.array dt sh c) v w := by
+  simp only [pyValidate, arrayValidate] at h
+  cases hst : arrayStage1 E dt c v with
+  | none => simp [hst] at h
+  | some p =>
+    obtain ⟨x, s'⟩ := p
+    obtain ⟨⟨d', rfl, hd'⟩, hconv⟩ := arrayStage1_ok E hA dt c v x s' hst
+    simp only [hst] at h
+    have hconv' : Conv E (.array dt sh c) v (.atom (.ndarray d' s')) := by simpa [Conv] using hconv
+    have hdt : (match dt with | none => true | some t => d' == t) = true := by
+      cases dt with
+      | none => rfl
+      | some t => simpa using hd'
+    cases sh with
+    | none =>
+      simp at h; subst h
+      exact ⟨by simp only [inDomain, hdt, Bool.and_self], hconv'⟩
+    | some sp =>
+      simp only at h
+      obtain ⟨hs, rfl⟩ := ite_ok h
+      exact ⟨by simp only [inDomain, hdt, hs, Bool.and_self], hconv'⟩
 
 theorem sound_atomic_ctrait (hE : EnvOK E) (t : TraitType) (hs : t.subs = none) (hn : t.isNoFast = false)
     (hc : t.soundLeaf = true) (v w : Val) (h : ctraitValidate E t v = .ok w) : Good E t v w := by
@@ -380,6 +451,7 @@ theorem sound_atomic_ctrait (hE : EnvOK E) (t : TraitType) (hs : t.subs = none) 
   case string mn mx re => exact py_string_ok E hE mn mx re v w h
   case prefixList vals => exact py_prefixList_ok E vals v w h
   case prefixMap keys vals => exact py_prefixMap_ok E keys vals v w h
+  case array dt sh c => exact py_array_ok E hE.asarrayTyped dt sh c v w h
   case this an =>
     simp only [fastAlone] at h
     split at h
